@@ -207,10 +207,13 @@ pub fn convert_headers_to_http_format(
         http::response_skip_value_headers()
     };
 
+    // Header names are case-insensitive: `host:` is the same header as `Host:`
+    let listed = |list: &[&str], name: &str| list.iter().any(|n| n.eq_ignore_ascii_case(name));
+
     for header in headers {
-        if optional_list.contains(&header.name.as_str()) {
+        if listed(&optional_list, &header.name) {
             headers_in_order.push(http::Header::new(&header.name).optional());
-        } else if skip_value_list.contains(&header.name.as_str()) {
+        } else if listed(&skip_value_list, &header.name) {
             headers_in_order.push(http::Header::new(&header.name));
         } else {
             headers_in_order
